@@ -160,6 +160,12 @@ func mapRunesToClusterIndices3(dir di.Direction, runes Range, glyphs []Glyph, bu
 	var mapping []glyphIndex
 	if cap(buf) >= runes.Count {
 		mapping = buf[:runes.Count]
+		// runes outside of every glyph cluster (a run may have lost all the
+		// glyphs of some runes) are not written below: do not expose the
+		// values left by a previous paragraph
+		for i := range mapping {
+			mapping[i] = 0
+		}
 	} else {
 		mapping = make([]glyphIndex, runes.Count)
 	}
